@@ -31,7 +31,7 @@ RULES["C15"] = (
 )
 ASSUMPTIONS["C15"] = [
     "trimesh's own volume/area/center_mass/moment_inertia/is_watertight/euler_number/body_count are the observation points (their exactness is C03/C05)",
-    "resolution mapping taken from the implementation: uv_sphere(count=[a,b]) -> a+a%2 latitude points, 2(b+b%2) sections; capsule(count=[a,b]) -> a+a%2 profile points, b+b%2 sections; defaults 32/64, cylinder-like default 32 sections",
+    "resolution mapping taken from the implementation: uv_sphere(count=[a,b]) -> a+a%2 latitude points, 2(b+b%2) sections; capsule(count=[a,b]) -> a+a%2 profile points (two hemispheres), b sections; Capsule(sections=s) -> count=[s,s]; defaults 32/64, cylinder-like default 32 sections",
     "placement along the axis taken from the implementation: cone base at z=0, capsule and cylinder centred",
     "sweep_polygon: no closed form is promised; slices must be congruent copies of the profile in the bisector planes; the volume band "
     "[1-(phi^2+alpha^2+(rho kappa)^2), 1+(rho kappa)^2] x A L is only demanded for paths whose tangent stays >= 40 deg away from +-Z "
@@ -183,7 +183,7 @@ def call_revolve(fn, p, T, segment=None, factor=1):
         c = p["count"]
         if factor != 1:
             c = [32, 64] if c is None else c
-            c = [(c[0] + c[0] % 2) * 2, (c[1] + c[1] % 2) * 2]
+            c = [(c[0] + c[0] % 2) * 2, c[1] * 2]
         return creation.capsule(height=p["height"], radius=p["radius"], count=c, **kw)
     if fn == "torus":
         return creation.torus(p["major_radius"], p["minor_radius"], major_sections=p["major_sections"] * factor, minor_sections=p["minor_sections"] * factor, **kw)
@@ -650,11 +650,13 @@ def b_primitive(case, ctx):
             sm = O.smooth_capsule(r, h)
             V = float(m.volume)
             check(V <= sm["volume"] * (1 + 1e-12), sig + "|above_smooth_volume", f"{V} > {sm['volume']}")
-            check(V >= sm["volume"] * 0.4, sig + "|below_resolution_bound", f"{V} vs smooth {sm['volume']}")
-            cm = np.asarray(m.center_mass)
-            check(np.abs(cm - M[:3, 3]).max() <= 1e-9 * (max(r, h) * (1 + (np.abs(M[:3, 3]).max() / min(r, h)) ** 2)), sig + "|center_mass", f"{cm.tolist()} vs {M[:3, 3].tolist()}")
             n = ring_count_about_axis(m, M, r)
             check(n == p["sections"], "C15.primitive|Capsule|sections_ignored", f"Capsule(sections={p['sections']}) has {n} facets in circle")
+            # sections facets around the axis, sections (rounded up to even) points on the profile of the two hemispheres
+            k = p["sections"]
+            ref = O.place(O.revolved(G.capsule_profile(r, h, k + k % 2), k), M)
+            check_vertices_bounds(m, ref, sig, "Capsule mesh")
+            check_measures(m, ref, sig, "Capsule mesh")
         elif kind == "Extrusion":
             rings = G.build_rings(p["polygon"])
             ref = O.place(O.prism(rings, p["height"]), M)
